@@ -25,9 +25,9 @@ import common as C  # noqa: E402
 from floatcmp import f2b, b2f  # noqa: E402
 from parallel import driver_parallel  # noqa: E402
 
-GEN = ['KernF', 'KernR']
+GEN = ['KernF', 'KernR', 'KernLoopR']
 PROPS = ['FinVerif.Props.C20a', 'FinVerif.Props.C20b', 'FinVerif.Props.C20c', 'FinVerif.Props.C20d', 'FinVerif.Props.C20e',
-         'FinVerif.Props.C20f', 'FinVerif.Props.C20g', 'FinVerif.Props.C20h', 'FinVerif.Props.C20i', 'FinVerif.Props.C20j', 'FinVerif.Props.C20k', 'FinVerif.Props.C20l', 'FinVerif.Props.C20m', 'FinVerif.Props.C20n', 'FinVerif.Props.C20o']
+         'FinVerif.Props.C20f', 'FinVerif.Props.C20g', 'FinVerif.Props.C20h', 'FinVerif.Props.C20i', 'FinVerif.Props.C20j', 'FinVerif.Props.C20k', 'FinVerif.Props.C20l', 'FinVerif.Props.C20m', 'FinVerif.Props.C20n', 'FinVerif.Props.C20o', 'FinVerif.Props.C20p']
 DRIVERS = ['FinVerif.Driver.C20']
 
 RULE = ('scalar kernels: dense grid on [-38,38] (step 0.025) + seeded uniform/normal samples + boundary values '
@@ -1588,7 +1588,7 @@ def differential_section(ctx, meas):
 
 # ============================================================================================ entry points
 def run(ctx):
-    drivers_ok = C.lean_stage(ctx, GEN, PROPS, DRIVERS)
+    drivers_ok = C.lean_stage(ctx, GEN, PROPS, DRIVERS, extra_files=['FinVerif/Lemmas/C20Loop.lean'])
     C.import_financepy()
     meas = Meas()
     with warnings.catch_warnings():
